@@ -24,6 +24,10 @@ type pcTx struct {
 	sd   *starknet.StateDiff
 	hash felt.Felt
 	diff *core.StateDiff // sd adapted (model side)
+
+	// the round the transaction belongs to (a transaction belongs to exactly one round of one slot)
+	round string
+	slot  uint64
 }
 
 // pcRound is one round of one slot: an identifier and an append-only transaction list.
@@ -45,6 +49,7 @@ type pcModel struct {
 	rounds  map[uint64]*pcRound
 	classes map[felt.Felt]core.ClassDefinition // definitions of the classes declared by pre-confirmed txs
 	casm    map[felt.Felt]felt.Felt
+	classTx map[felt.Felt]*pcTx // the transaction that declares a class (each class is declared by exactly one)
 	nIdent  int
 	nTx     uint64
 	nClass  uint64
@@ -52,7 +57,7 @@ type pcModel struct {
 }
 
 func newPcModel(t *tape.Tape, addrs, slots []felt.Felt) *pcModel {
-	return &pcModel{t: t, addrs: addrs, slots: slots, rounds: map[uint64]*pcRound{}, classes: map[felt.Felt]core.ClassDefinition{}, casm: map[felt.Felt]felt.Felt{}}
+	return &pcModel{t: t, addrs: addrs, slots: slots, rounds: map[uint64]*pcRound{}, classes: map[felt.Felt]core.ClassDefinition{}, casm: map[felt.Felt]felt.Felt{}, classTx: map[felt.Felt]*pcTx{}}
 }
 
 func fu(u uint64) *felt.Felt { return felt.NewFromUint64[felt.Felt](u) }
@@ -196,6 +201,7 @@ func (m *pcModel) genTx(st *overlay) *pcTx {
 		switch act := t.Draw("pc.act", 8); {
 		case act == 0: // declare a Sierra class
 			ch, casm := m.newClass()
+			m.classTx[ch] = x
 			sd.DeclaredClasses = append(sd.DeclaredClasses, struct {
 				ClassHash         *felt.Felt `json:"class_hash"`
 				CompiledClassHash *felt.Felt `json:"compiled_class_hash"`
@@ -285,10 +291,18 @@ func (m *pcModel) newRound(num uint64, ver string, st *overlay, n int) *pcRound 
 		seq: fu(0x5e9), mode: starknet.L1DAMode(m.t.Draw("pc.da", 2)), price: uint64(10 + m.t.Draw("pc.price", 5)),
 	}
 	for i := 0; i < n; i++ {
-		r.txs = append(r.txs, m.genTx(st))
+		m.extend(r, st)
 	}
 	m.rounds[num] = r
 	return r
+}
+
+// extend appends one freshly generated transaction to round r (rounds are append-only).
+func (m *pcModel) extend(r *pcRound, st *overlay) *pcTx {
+	x := m.genTx(st)
+	x.round, x.slot = r.ident, r.num
+	r.txs = append(r.txs, x)
+	return x
 }
 
 func (r *pcRound) full() starknet.PreConfirmedBlock { return r.prefix(len(r.txs)) }
